@@ -38,6 +38,9 @@ def main(argv=None):
         pid = rp["property"]
         a.rule = rp["rule"]
         a.no_evidence = True
+        if "--root" not in (argv or sys.argv) and os.path.isdir(rp.get("root", "")) and os.environ.get("FAST_TICC_ROOT") is None:
+            a.root = rp["root"]
+        print(f"REPLAY property={pid} rule={a.rule} site={rp.get('site')} role={rp.get('role')} root={a.root}")
     if not pid:
         ap.error("property id required")
     try:
